@@ -207,6 +207,15 @@ def landuse_keys(spec):
 
 
 # ---------------------------------------------------------------------------
+def bdef_cells(iedge, nx, ny):
+    """CAMx boundary definition of one edge (1 W, 2 E, 3 S, 4 N): per cell
+    the index of the modelled cell next to the boundary, 0 for the corner
+    cells, which are not modelled"""
+    ncell = ny if iedge in (1, 2) else nx
+    inner = {1: 2, 2: nx - 1, 3: 2, 4: ny - 1}[iedge]
+    return [0 if i in (0, ncell - 1) else inner for i in range(ncell)]
+
+
 def yyjjj(d):
     return int(d) % 100000
 
@@ -248,9 +257,8 @@ def encode(spec):
         out.append(aq_header(spec, c))
         for iedge, ncell in enumerate((ny, ny, nx, nx), 1):
             body = struct.pack('>iii', 1, iedge, ncell)
-            for i in range(ncell):
-                body += struct.pack('>iiii', 2 if i in (0, ncell - 1) else 0,
-                                    0, 0, 0)
+            for ic in bdef_cells(iedge, nx, ny):
+                body += struct.pack('>iiii', ic, 0, 0, 0)
             out.append(rec(body))
         for t in range(nt):
             out.append(rec(struct.pack('>ifif', yyjjj(st[t][0]),
@@ -349,6 +357,8 @@ def decode(fmt, buf, rows=None, cols=None, nvars=None, newstyle=None):
                 if ie != iedge or nc != ncell or len(b) != 12 + 16 * ncell:
                     raise ValueError('boundary definition %d malformed'
                                      % iedge)
+                c.setdefault('bdef', []).append(list(struct.unpack(
+                    '>%di' % (4 * ncell), b[12:]))[::4])
                 pos += 1
             per = 1 + nspec * 4
         else:
